@@ -111,10 +111,11 @@ func addrEscapes(a *ssa.Alloc) bool {
 				}
 			case *ssa.DebugRef:
 			case *ssa.FieldAddr, *ssa.IndexAddr:
-				// address of a part of an aggregate cell: writes through it do
-				// not replace a scalar cell's value, but for aggregates we
-				// give up.
-				esc = true
+				// address of a part of an aggregate cell: harmless when it is
+				// only ever loaded from.
+				if !onlyLoaded(x.(ssa.Value)) {
+					esc = true
+				}
 			default:
 				esc = true
 			}
@@ -206,4 +207,29 @@ func nearestStore(ld *ssa.UnOp, a *ssa.Alloc) ssa.Value {
 		idx = len(b.Instrs)
 	}
 	return nil
+}
+
+// onlyLoaded reports whether an address value is used only for loads (also
+// through nested field/index selections).
+func onlyLoaded(addr ssa.Value) bool {
+	for _, r := range Referrers(addr) {
+		switch x := r.(type) {
+		case *ssa.UnOp:
+			if x.Op != token.MUL {
+				return false
+			}
+		case *ssa.FieldAddr:
+			if !onlyLoaded(x) {
+				return false
+			}
+		case *ssa.IndexAddr:
+			if !onlyLoaded(x) {
+				return false
+			}
+		case *ssa.DebugRef:
+		default:
+			return false
+		}
+	}
+	return true
 }
